@@ -180,11 +180,50 @@ fn c14d_case(p: &conc::ScanProgram, reps: u32) -> CaseReport {
 }
 
 // ------------------------------------------------------------------------------------------
+// C18 (termination) - the same programs are the body of the C20 sanitizer runs
+// ------------------------------------------------------------------------------------------
+
+fn c18_case(p: &conc::TermProgram, journal: Option<&str>) -> CaseReport {
+    if let Some(j) = journal {
+        let _ = std::fs::write(j, serde_json::to_vec(&json!({"program": serde_json::to_value(p).unwrap()})).unwrap());
+    }
+    let out = conc::run_term_program(p);
+    let mut counters = BTreeMap::new();
+    *counters.entry(format!("workers.{}", (p.visible_cpus / 2).max(1))).or_insert(0) += 1;
+    *counters.entry("calls".into()).or_insert(0) += out.calls;
+    *counters.entry("flush_errors".into()).or_insert(0) += out.flush_errors;
+    *counters.entry("flush_out_of_space".into()).or_insert(0) += out.out_of_space;
+    *counters.entry("faults_injected".into()).or_insert(0) += out.faults_injected;
+    *counters.entry(format!("drop.{:?}", p.drop_mode)).or_insert(0) += 1;
+    if p.fail_from > 0 {
+        *counters.entry("failing_device".into()).or_insert(0) += 1;
+    }
+    let nontrivial = (out.threads_inside >= 3 || out.out_of_space > 0 || out.faults_injected > 0).then(|| env::fnv(format!("{p:?}").as_bytes()));
+    let sample = nontrivial.map(|_| json!({"program": serde_json::to_value(p).unwrap(), "calls": out.calls, "max_threads_inside_the_store": out.threads_inside, "flush_out_of_space": out.out_of_space, "faults_injected": out.faults_injected}));
+    let failure = out.panicked.then(|| ("thread-panicked".to_string(), "a thread panicked inside the store during a contention program".to_string(), json!({"program": serde_json::to_value(p).unwrap()})));
+    CaseReport { failure, nontrivial, counters, sample, evaluations: 1 }
+}
+
+/// `fxv C18 --single <journal> <limit_ms>`: re-run one journaled program in isolation.
+pub fn single(path: &str, limit_ms: u64) -> i32 {
+    env::set_watch_limit(limit_ms);
+    let doc: Value = serde_json::from_str(&std::fs::read_to_string(path).expect("read")).expect("json");
+    let Ok(p) = serde_json::from_value::<conc::TermProgram>(doc["program"].clone()) else { return 64 };
+    let r = c18_case(&p, None);
+    if r.failure.is_some() {
+        println!("SINGLE-FAIL");
+        return 1;
+    }
+    println!("SINGLE-OK");
+    0
+}
+
+// ------------------------------------------------------------------------------------------
 // worker / parent plumbing
 // ------------------------------------------------------------------------------------------
 
 pub fn worker(id: &str, seed: u64, lane: u64, count: u32, outdir: &str, tier: Tier) -> i32 {
-    env::set_watch_limit(tier.pick(40_000, 90_000));
+    env::set_watch_limit(if id == "C18" { tier.pick(20_000, 30_000) } else { tier.pick(40_000, 90_000) });
     let agg = Mutex::new(WorkerAgg::default());
     let failed = std::sync::atomic::AtomicBool::new(false);
     let mut runner = new_runner(count, tier.pick(30, 80), seed, 5000 + lane);
@@ -229,12 +268,57 @@ pub fn worker(id: &str, seed: u64, lane: u64, count: u32, outdir: &str, tier: Ti
                     TestError::Abort(r) => TestError::Abort(r),
                 })
         }
+        "C16D" => {
+            use proptest::strategy::Strategy;
+            let strat = conc::race_program_strategy().prop_map(|mut p| {
+                p.cache = true;
+                p
+            });
+            runner
+                .run(&strat, |p| {
+                    let counting = !failed.load(std::sync::atomic::Ordering::Relaxed);
+                    let r = c08_case(&p, tier.pick(2, 4));
+                    absorb(&agg, &r, counting);
+                    match r.failure {
+                        Some((sig, msg, _)) => {
+                            failed.store(true, std::sync::atomic::Ordering::Relaxed);
+                            Err(TestCaseError::fail(format!("[{sig}] {msg}")))
+                        }
+                        None => Ok(()),
+                    }
+                })
+                .map_err(|e| match e {
+                    TestError::Fail(r, v) => TestError::Fail(r, serde_json::to_value(&v).unwrap()),
+                    TestError::Abort(r) => TestError::Abort(r),
+                })
+        }
         "C14D" => {
             let strat = conc::scan_program_strategy();
             runner
                 .run(&strat, |p| {
                     let counting = !failed.load(std::sync::atomic::Ordering::Relaxed);
                     let r = c14d_case(&p, tier.pick(2, 4));
+                    absorb(&agg, &r, counting);
+                    match r.failure {
+                        Some((sig, msg, _)) => {
+                            failed.store(true, std::sync::atomic::Ordering::Relaxed);
+                            Err(TestCaseError::fail(format!("[{sig}] {msg}")))
+                        }
+                        None => Ok(()),
+                    }
+                })
+                .map_err(|e| match e {
+                    TestError::Fail(r, v) => TestError::Fail(r, serde_json::to_value(&v).unwrap()),
+                    TestError::Abort(r) => TestError::Abort(r),
+                })
+        }
+        "C18" => {
+            let strat = conc::term_program_strategy();
+            let journal = format!("{outdir}/lane{lane}.current.json");
+            runner
+                .run(&strat, |p| {
+                    let counting = !failed.load(std::sync::atomic::Ordering::Relaxed);
+                    let r = c18_case(&p, Some(&journal));
                     absorb(&agg, &r, counting);
                     match r.failure {
                         Some((sig, msg, _)) => {
@@ -295,14 +379,24 @@ fn meta(id: &str, tier: Tier) -> Meta {
             ],
         },
         "C08" => Meta {
-            cases: tier.pick(1600, 30_000),
+            cases: tier.pick(2400, 30_000),
             rule: "proptest-generated racing programs on a persistent store with a 24-64 block device (freed blocks are reused at once), cache on/off, both I/O paths: one writer thread per key (1-4 keys; stamped values of 14 B .. 3 blocks that identify key and generation every 32 bytes, or 8-byte counters) issuing put / delete / re-create with another length / update_ttl / persist / increment / compare-and-swap on its own key, 1-3 reader threads looping over get / get_bytes / range_query / compare-and-swap probes on all keys, and a thread calling flush() in a loop; schedules: free, jitter, or bounded parks at the named points (after the extent is located, after the device read, before retirement, before release, before publish ...). The writer publishes started/completed state numbers around each call; a reader samples lo=completed before and hi=started after its call. A returned value must be one complete generation of that key whose state number lies in [lo, hi]; not-found only if an absent state lies in the window (or, for a scan, the key was being rewritten); StaleExtent only if hi > lo; any other error, a foreign key's bytes, marker bytes, padding or a mixture fails; increments and swaps by the sole modifier must return exactly the model's result; no device write may hit the blocks of an extent while a reader is parked between locating and reading it. Non-trivial: an execution with at least one read from the device and at least one read that overlapped a modification of its key. Evaluations = program executions.",
             assumptions: vec!["schedules are sampled and steered, not enumerated".into(), "the no-overwrite check covers readers parked at the after_sector_load point (the controller knows sector and length there)".into()],
+        },
+        "C16D" => Meta {
+            cases: tier.pick(2400, 24_000),
+            rule: "the racing-reader programs of C08 (one writer per key issuing put / delete / re-create / update_ttl / persist / increment / compare-and-swap, 1-3 readers looping over get / get_bytes / range_query, a flushing thread, 24-64 block device, steered schedules) with the read cache always ON: every read must return a complete generation inside the [completed-before, started-after] window, sole-modifier increments and swaps must be exact, and after all threads finished every key must read back as its writer's last state - a stale cache entry masking an update, delete or TTL change under any explored interleaving fails. Non-trivial: an execution with a device read and a read overlapping a modification.",
+            assumptions: vec!["schedules are sampled and steered, not enumerated".into()],
         },
         "C14D" => Meta {
             cases: tier.pick(900, 16_000),
             rule: "proptest-generated concurrent scan programs, memory-only and persistent: 6-330 stable keys (inserted before the threads start, never touched; > 256 exercises the scan's re-pin path) interleaved lexicographically with churn keys; 2-3 writers insert / insert_bytes / insert_if_absent / delete / flush the churn keys (even churn keys have one owning writer, odd ones are shared by all writers so creation races deletion of the same key); 1-2 scanners issue range queries with generated windows and limits. Each result must be strictly ascending, inside the bounds, at most limit long, every value a genuine stamped value of its key, every stable key inside the returned window present exactly once, and an owned churn key whose delete completed before the scan began (and that was not re-created until it ended) must not appear. After all threads finished the full range query, get() of every key, len() and both index key lists must agree. Non-trivial: an execution with a scan that overlapped writer calls.",
             assumptions: vec!["schedules are sampled and steered, not enumerated".into()],
+        },
+        "C18" => Meta {
+            cases: tier.pick(480, 6000),
+            rule: "proptest-generated contention programs on persistent stores with 1-8 workers: 1-3 writers (insert / insert_bytes / TTL insert / delete / increment / compare-and-swap, 0-3 block values on 2-12 keys), 0-2 readers (get, range_query), 1-3 threads calling flush() in a loop, optionally the TTL sweeper at a 2 ms interval; devices of 20-60 blocks (they fill up: flush must answer OutOfSpace and succeed again after deletes) or 500 blocks; optionally every device write/fsync fails from the k-th call on (healing after 0/30/200 ms or never); schedules free / jitter / bounded parks inside reads, batches and retirement; close either after joining, or by dropping the main handle while the threads still run, or with the sweeper possibly holding the last reference. Every call, join, flush and drop runs under a 20 s watchdog; a program that trips it is re-executed alone with a 60 s limit and only a second overrun is a violation (thread states are reported). Non-trivial: at least three threads were inside the store at once, or a flush met a full device, or an injected fault was consumed.",
+            assumptions: vec!["termination is observed for the explored schedules only (a watchdog is a bound, not a proof of liveness); every run of every other engine is under the same watchdog".into()],
         },
         _ => unreachable!(),
     }
@@ -401,6 +495,30 @@ pub fn run_campaign(id: &'static str, property: &'static str, tier: Tier, seed: 
                 eprintln!("fxv: {property} ({id}): [{sig}] {}", doc["message"].as_str().unwrap_or(""));
             }
             ev.set("failure", json!({"signature": sig, "message": doc["message"]}));
+        } else if id == "C18" && (out.status.code() == Some(2) || out.status.code().is_none()) && outdir.join(format!("lane{lane}.current.json")).exists() {
+            // the worker tripped the watchdog (or died): re-run the journaled program alone, 60 s limit
+            let journal = outdir.join(format!("lane{lane}.current.json"));
+            let first = text.lines().find(|l| l.contains("INCONCLUSIVE")).unwrap_or("worker died").to_string();
+            let again = Command::new(&exe).args(["C18", "--single", journal.to_str().unwrap(), "60000"]).stdout(Stdio::piped()).stderr(Stdio::null()).output();
+            let (second_hang, second_text) = match &again {
+                Ok(o) => (!String::from_utf8_lossy(&o.stdout).contains("SINGLE-OK"), String::from_utf8_lossy(&o.stdout).lines().find(|l| l.contains("INCONCLUSIVE")).unwrap_or("").to_string()),
+                Err(_) => (false, String::new()),
+            };
+            if second_hang {
+                let mut doc: Value = serde_json::from_str(&std::fs::read_to_string(&journal).unwrap_or_default()).unwrap_or_default();
+                doc["property"] = json!(property);
+                doc["engine"] = json!("conc:C18");
+                doc["signature"] = json!("hang");
+                doc["message"] = json!(format!("a contention program did not finish twice (20 s with others, 60 s alone): first: {first}; alone: {second_text}"));
+                if !env::report_violation(property, "hang", &doc) {
+                    code = 1;
+                    ev.violations += 1;
+                    eprintln!("fxv: {property}: {}", doc["message"].as_str().unwrap_or(""));
+                }
+                ev.set("failure", json!({"signature": "hang", "message": doc["message"]}));
+            } else {
+                *counters.entry("watchdog_overrun_not_reproduced".into()).or_insert(0) += 1;
+            }
         } else {
             let status = out.status;
             if status.code() == Some(2) && text.contains("INCONCLUSIVE watchdog") {
@@ -442,7 +560,7 @@ pub fn replay_sub(id: &str, path: &str) -> i32 {
     for _ in 0..60 {
         let failed = match id {
             "C14D" => serde_json::from_value::<conc::ScanProgram>(doc["replay"]["program"].clone()).ok().and_then(|p| c14d_case(&p, 1).failure),
-            "C08" => serde_json::from_value::<conc::RaceProgram>(doc["replay"]["program"].clone()).ok().and_then(|p| c08_case(&p, 1).failure),
+            "C08" | "C16D" => serde_json::from_value::<conc::RaceProgram>(doc["replay"]["program"].clone()).ok().and_then(|p| c08_case(&p, 1).failure),
             _ => None,
         };
         if let Some((sig, msg, _)) = failed {
